@@ -13,8 +13,8 @@ import inspect
 import keyword
 import os.path
 from collections.abc import Callable, Mapping
-from types import FunctionType, ModuleType
-from typing import Any
+from types import FunctionType, ModuleType, UnionType
+from typing import Any, ForwardRef
 
 from mypy.fastparse import parse_type_comment
 from mypy.moduleinspect import is_c_module
@@ -772,7 +772,15 @@ class InspectionStubGenerator(BaseStubGenerator):
         """Given a type, return a string representation"""
         if typ is Any:
             return "Any"
-        typename = getattr(typ, "__qualname__", typ.__name__)
+        if isinstance(typ, UnionType):
+            # an evaluated `X | Y` annotation is not a class
+            return " | ".join(self.get_type_fullname(arg) for arg in typ.__args__)
+        if isinstance(typ, ForwardRef):
+            return typ.__forward_arg__
+        typename = getattr(typ, "__qualname__", None) or getattr(typ, "__name__", None)
+        if typename is None:
+            # some other typing construct that is not a class
+            return "_typeshed.Incomplete"
         module_name = self.get_obj_module(typ)
         if module_name is None:
             # This should not normally happen, but some types may resist our
